@@ -509,6 +509,197 @@ def apply_function_reference(bodies_json, ref):
     return sorted(ren.items())
 
 
+# ---------------------------------------------------------------------------------------------------------
+# New private helper functions are read where they are called (MIR-level inlining on the fact file).
+# A refactoring that moves part of a function into a helper of its own leaves the behaviour alone; the rules
+# are written against the functions of the reference tree, so a function that the reference tree does not
+# have (after rename / move aliasing), that is not public, not recursive and not used as a value, is spliced
+# into each of its call sites: its locals and blocks are appended to the caller (indices shifted), arguments
+# become assignments to its parameter locals, `return` becomes an assignment of its return place to the call's
+# destination followed by a jump to the call's target; its closures and promoted constants are adopted by the
+# caller.  Inlining preserves behaviour, so whatever the rules decide on the result holds for the tree.
+
+def _shift_locals(x, off, child_ren=None, owner_ren=None):
+    if isinstance(x, dict):
+        if isinstance(x.get("l"), int) and "p" in x:
+            x["l"] += off
+            for e in x["p"]:
+                if isinstance(e, dict) and set(e.keys()) == {"idx"} and isinstance(e["idx"], int):
+                    e["idx"] += off
+        if child_ren:
+            if x.get("r") == "agg" and x.get("ak") == "closure" and x.get("closure") in child_ren:
+                x["closure"] = child_ren[x["closure"]]
+            if "uneval" in x and "promoted" in x and (x["uneval"], x["promoted"]) in owner_ren:
+                x["uneval"], x["promoted"] = owner_ren[(x["uneval"], x["promoted"])]
+        for k, v in x.items():
+            if k in ("span", "fn_span", "ty", "variants"):
+                continue
+            _shift_locals(v, off, child_ren, owner_ren)
+    elif isinstance(x, list):
+        for v in x:
+            _shift_locals(v, off, child_ren, owner_ren)
+
+
+def _shift_blocks(t, off):
+    for k in ("target", "otherwise", "unwind"):
+        if isinstance(t.get(k), int) and not isinstance(t.get(k), bool):
+            t[k] += off
+    if "targets" in t:
+        t["targets"] = [[v, tg + off] for v, tg in t["targets"]]
+
+
+def _local_callee(t):
+    f = t.get("func")
+    if t.get("t") == "call" and isinstance(f, dict) and f.get("local") and "fn" in f:
+        return f["fn"]
+    return None
+
+
+def _count_fn_refs(x, name):
+    n = 0
+    if isinstance(x, dict):
+        if x.get("fn") == name or x.get("res") == name:
+            n += 1
+        for k, v in x.items():
+            if k not in ("span", "fn_span"):
+                n += _count_fn_refs(v, name)
+    elif isinstance(x, list):
+        for v in x:
+            n += _count_fn_refs(v, name)
+    return n
+
+
+def _inline_at(bodies_json, b, bi, h):
+    import copy
+    t = b["blocks"][bi]["term"]
+    off_l, off_b = len(b["locals"]), len(b["blocks"])
+    hn, bn = h["name"], b["name"]
+    # adopt the helper's closures and promoted constants (deep copies, renumbered after the caller's own)
+    n_cl = len([x for x in bodies_json if x.get("parent") == bn and x["kind"] == "Closure" and "::promoted[" not in x["name"][len(bn):]])
+    n_pr = len([x for x in bodies_json if x["name"].startswith(bn + "::promoted[")])
+    child_ren, owner_ren, adopted = {}, {}, []
+    kids = [x for x in bodies_json if x["name"].startswith(hn + "::")]
+    direct_cl = sorted([x["name"] for x in kids if re.fullmatch(re.escape(hn) + r"::\{closure#\d+\}", x["name"])], key=lambda s_: int(re.search(r"#(\d+)\}$", s_).group(1)))
+    for k_, nm in enumerate(direct_cl):
+        child_ren[nm] = "%s::{closure#%d}" % (bn, n_cl + k_)
+    direct_pr = sorted([x["name"] for x in kids if re.fullmatch(re.escape(hn) + r"::promoted\[\d+\]", x["name"])], key=lambda s_: int(re.search(r"\[(\d+)\]$", s_).group(1)))
+    for k_, nm in enumerate(direct_pr):
+        old_idx = int(re.search(r"\[(\d+)\]$", nm).group(1))
+        owner_ren[(hn, old_idx)] = (bn, n_pr + k_)
+        child_ren[nm] = "%s::promoted[%d]" % (bn, n_pr + k_)
+
+    def ren(nm):
+        if not isinstance(nm, str):
+            return nm
+        for o in sorted(child_ren, key=len, reverse=True):
+            if nm == o or nm.startswith(o + "::"):
+                return child_ren[o] + nm[len(o):]
+        if nm == hn:
+            return bn
+        return nm
+    for x in kids:
+        c = copy.deepcopy(x)
+        old = c["name"]
+        c["name"] = ren(old)
+        if c["name"] == old:
+            continue
+        for k_ in ("root", "parent"):
+            if k_ in c:
+                c[k_] = ren(c[k_]) if c[k_] != hn else bn
+        if "root" in c and "root" in b:
+            c["root"] = b["root"]
+        # references from inside the adopted child to its own siblings / promoteds
+        sub_owner = {}
+        for blk in c["blocks"]:
+            _rename_refs(blk, ren)
+        adopted.append(c)
+    hb = copy.deepcopy(h["blocks"])
+    for blk in hb:
+        _shift_locals(blk["stmts"], off_l, child_ren, owner_ren)
+        _shift_locals(blk["term"], off_l, child_ren, owner_ren)
+        _shift_blocks(blk["term"], off_b)
+        _rename_refs(blk, ren, only_closure=True)
+    b["locals"].extend(copy.deepcopy(h["locals"]))
+    for d in h.get("debug", []):
+        dd = copy.deepcopy(d)
+        _shift_locals(dd, off_l)
+        dd["arg"] = None
+        dd["inlined_from"] = hn
+        b.setdefault("debug", []).append(dd)
+    blk = b["blocks"][bi]
+    for i, a in enumerate(t["args"]):
+        blk["stmts"].append({"s": "assign", "lhs": {"l": off_l + 1 + i, "p": [], "ty": h["locals"][1 + i]["ty"]}, "rv": {"r": "use", "a": a}, "span": t["span"]})
+    blk["term"] = {"t": "goto", "target": off_b, "span": t["span"]}
+    for hblk in hb:
+        ht = hblk["term"]
+        if ht["t"] == "return":
+            if t.get("target") is None:
+                hblk["term"] = {"t": "unreachable", "span": ht["span"]}
+            else:
+                hblk["stmts"].append({"s": "assign", "lhs": copy.deepcopy(t["dest"]), "rv": {"r": "use", "a": {"k": "move", "l": off_l, "p": [], "ty": h["locals"][0]["ty"]}}, "span": ht["span"]})
+                hblk["term"] = {"t": "goto", "target": t["target"], "span": ht["span"]}
+        elif ht["t"] == "resume" and isinstance(t.get("unwind"), int) and not isinstance(t.get("unwind"), bool):
+            hblk["term"] = {"t": "goto", "target": t["unwind"], "span": ht["span"]}
+    b["blocks"].extend(hb)
+    bodies_json.extend(adopted)
+
+
+def _rename_refs(x, ren, only_closure=False):
+    if isinstance(x, dict):
+        if x.get("r") == "agg" and x.get("ak") == "closure" and "closure" in x:
+            x["closure"] = ren(x["closure"])
+        if not only_closure and "uneval" in x and "promoted" in x:
+            full = ren("%s::promoted[%d]" % (x["uneval"], x["promoted"]))
+            m = re.fullmatch(r"(.*)::promoted\[(\d+)\]", full)
+            if m:
+                x["uneval"], x["promoted"] = m.group(1), int(m.group(2))
+        for k, v in x.items():
+            if k not in ("span", "fn_span", "ty"):
+                _rename_refs(v, ren, only_closure)
+    elif isinstance(x, list):
+        for v in x:
+            _rename_refs(v, ren, only_closure)
+
+
+def inline_new_helpers(bodies_json, ref, limit_blocks=250):
+    cur = function_signatures(bodies_json)
+    new = [n for n in cur if n not in ref]
+    if not new:
+        return []
+    by = {b["name"]: b for b in bodies_json}
+    cands = []
+    for n in new:
+        h = by[n]
+        if h.get("vis_pub") or len(h["blocks"]) > limit_blocks:
+            continue
+        if any(_local_callee(blk["term"]) == n for x in bodies_json if x["name"] == n or x["name"].startswith(n + "::") for blk in x["blocks"]):
+            continue   # recursive
+        cands.append(n)
+    done = []
+    for _round in range(5):
+        progress = False
+        for n in list(cands):
+            h = by[n]
+            inner = [_local_callee(blk["term"]) for x in bodies_json if x["name"] == n or x["name"].startswith(n + "::") for blk in x["blocks"]]
+            if any(c in cands and c != n for c in inner):
+                continue   # inline what it calls first
+            sites = [(b, bi) for b in bodies_json if b["name"] != n and not b["name"].startswith(n + "::") for bi, blk in enumerate(b["blocks"]) if _local_callee(blk["term"]) == n]
+            refs = sum(_count_fn_refs(b["blocks"], n) for b in bodies_json)
+            if not sites or refs != len(sites):   # unused, or also used as a function value
+                cands.remove(n)
+                continue
+            for b, bi in sites:
+                _inline_at(bodies_json, b, bi, h)
+            bodies_json[:] = [x for x in bodies_json if x["name"] != n and not x["name"].startswith(n + "::")]
+            by = {b["name"]: b for b in bodies_json}
+            cands.remove(n)
+            done.append((n, sorted(set(b["name"] for b, _ in sites))))
+            progress = True
+        if not progress:
+            break
+    return done
+
+
 def adt_fields(adts_json):
     """{adt raw name: {variant: [[field name, type], ...]}} for crate-local ADTs with named fields."""
     out = {}
@@ -607,13 +798,16 @@ def apply_field_reference(j, ref):
 
 
 class Facts:
-    def __init__(self, path, meta=None):
+    def __init__(self, path, meta=None, inline=True):
+        self._inline = inline
+        self._raw = None
         with open(path) as fh:
             self.j = json.load(fh)
         self.closure_aliases = []
         self.function_aliases = []
         self.field_aliases = []
         self.field_reorders = 0
+        self.inlined_helpers = []
         _ref_path = os.path.join(os.path.dirname(os.path.dirname(os.path.dirname(os.path.abspath(__file__)))), "reference_names.json")
         if os.path.exists(_ref_path):
             with open(_ref_path) as fh:
@@ -621,6 +815,15 @@ class Facts:
             self.field_aliases = apply_field_reference(self.j, _ref.get("fields", {}))
             self.field_reorders = apply_field_order(self.j, _ref.get("fields", {}))
             self.function_aliases = apply_function_reference(self.j["bodies"], _ref.get("functions", {}))
+            self.inlined_helpers = []
+            try:
+                import copy as _copy
+                _backup = _copy.deepcopy(self.j["bodies"])
+                self.inlined_helpers = inline_new_helpers(self.j["bodies"], _ref.get("functions", {})) if inline else []
+            except Exception as _e:   # never let the convenience break a check: analyse the tree as written
+                self.j["bodies"] = _backup
+                self.inlined_helpers = []
+                self.inline_error = repr(_e)
             self.closure_aliases = apply_closure_reference(self.j["bodies"], _ref.get("closures", {}))
         self.path = path
         self.meta = meta or {}
@@ -675,6 +878,14 @@ class Facts:
                     b.debug_names[i + 1] = r
                     applied.append((name, c, r))
         return applied
+
+    def raw(self):
+        """The same tree with new helpers left where they are (for the analyses that are interprocedural by themselves)."""
+        if not self.inlined_helpers:
+            return self
+        if self._raw is None:
+            self._raw = Facts(self.path, self.meta, inline=False)
+        return self._raw
 
     def hand_bodies(self):
         return [b for b in self.all_bodies if not b.derived]
